@@ -217,7 +217,13 @@ def check_c20(out, tier):
     for inv in r["violated"]:
         out.violation("L1.%s" % inv, {"model": "MC_Config"}, r["out"][-1500:])
     vectors = arg_vectors(tier, rnd)
-    results = runner.run_many(_try_ctor, vectors, chunk=50)
+    global _FX
+    _FX = Fixtures()          # created here, inherited by the forked workers, removed here (workers skip their exit handlers)
+    try:
+        results = runner.run_many(_try_ctor, vectors, chunk=50)
+    finally:
+        _FX.close()
+        _FX = None
     calls = []
     i = 0
     for thr in (-1, 0, 1, 50, 100, 101):
